@@ -328,6 +328,34 @@ def clause8_fetch_identity(ctx, P):
            "ids_equal compares %s of the two ids (expected type, valuedouble, valuestring)" % sorted(have))
 
 
+def clause9_refused_fetch_is_gone(ctx, P, cg):
+    """a fetch request that is answered with an error leaves no fetch behind: add_fetch_to_peer() has registered the fetch by the
+    time the walk over the states starts, so every path of the walk that ends in an error response has detached the fetch from
+    the states it already reached (remove_fetch_from_states) and released it (free_fetch reached) - otherwise the client keeps
+    getting notifications under an id it was told had failed, and the id stays taken"""
+    f = P.fn("fetch.c:add_fetch_to_states")
+    fp = ("param", 2, f.params[2]["name"])
+    ERR = ("create_error_response_from_request", "create_error_response")
+    bad = None
+    n = 0
+    for v in Q.path_views(ctx, P, f):
+        if not any(True for _ in v.calls(ERR)):
+            continue
+        n += 1
+        detached = any(P.term(f, i.a[0]) == fp for _, i in v.calls("remove_fetch_from_states"))
+        freed = False
+        for _, i in v.insts():
+            if i.op == "call" and i.callee and any(P.term(f, a) == fp for a in i.a):
+                if P.srcname_of(i.callee) == "free_fetch" or any(P.srcname_of(x) == "free_fetch" for x in cg.reach(i.callee)):
+                    freed = True
+        if not (detached and freed):
+            bad = v
+    ctx.ob("C01.6 R-COMMIT", f, "refused-fetch-is-taken-back", bad is None and n > 0,
+           "add_fetch_to_states() answers with an error on a path that leaves the fetch registered at the peer and attached to the "
+           "states it had reached: the client gets notifications under a fetch id it was told had failed, and a new fetch with that "
+           "id is refused as 'already in use'", witness=bad.witness() if bad else None)
+
+
 def run(ctx):
     for cfg in ctx.configs(["default"] if ctx.tier == "quick" else None):
         P, cg = cfg.P, cfg.cg
@@ -339,3 +367,4 @@ def run(ctx):
         clause6_event_payload(ctx, P, cg)
         clause7_attach_all(ctx, P, cg)
         clause8_fetch_identity(ctx, P)
+        clause9_refused_fetch_is_gone(ctx, P, cg)
